@@ -5,6 +5,50 @@ from .. import lib, guards
 V = "version::Version"
 
 
+def _from_str_get_mut(R, c, bv, gm_stores):
+    nexts = [(bi, t) for bi, t in bv.calls() if lib.callee_is(t, "std::iter::Iterator::next") and "Enumerate" in (t.get("resolved") or "")]
+    if not R.floor("C20-R1", "Enumerate::next call", len(nexts), 1):
+        return
+    nbi = nexts[0][0]
+    it = bv.trace_op(nexts[0][1]["args"][0])
+    calls = [x for x in walk(it) if x[0] == "call"]
+    names = [lib.norm(x[1]) for x in calls]
+    sep = [lib.term_const(c, a) for x in calls if lib.norm(x[1]).endswith("::split") for a in x[2][1:]]
+    R.check("C20-R1", "source", any(n.endswith("::split") for n in names) and any(n.endswith("Iterator::enumerate") for n in names) and sep == [46] and not any(n.split("::")[-1] in ("filter", "skip", "take", "rev", "step_by") for n in names),
+            "iterator is enumerate(split('.'))", "iterator source is not enumerate(split('.')): %s sep=%s" % (names, sep))
+    ps = [t2 for _, t2 in bv.calls() if lib.callee_is(t2, "parse")]
+    R.check("C20-R1", "component-type", len(ps) == 1 and [c.types[s_]["s"] for s_ in ps[0].get("substs", []) if isinstance(s_, int)] == ["u32"], "components parsed with str::parse::<u32>", "component parser is not parse::<u32>")
+    for (bi, si, p, r, gm) in gm_stores:
+        arr = strip(gm[2][0])
+        idx = strip(gm[2][1])
+        s_i = fmt_t(idx)
+        R.check("C20-R1", "index-is-enumerate-counter", idx[0] == "field" and idx[3] == 0 and "Iterator::next" in s_i, "index term: " + s_i, "store index is not the enumerate counter: " + s_i, lib.loc(bv, bi))
+        val = strip(bv._trace_rv(r, None, 0))
+        sv = fmt_t(val)
+        okv = val[0] == "okpayload" and "parse" in sv and "Iterator::next" in sv and ".1" in sv
+        R.check("C20-R1", "value-is-parsed-component", okv, "value term: " + sv[:160], "stored value is not the Ok payload of the parsed component: " + sv[:160], lib.loc(bv, bi))
+        sws, on = guards.switches_between(bv, [nbi], bi)
+        bad = []
+        bound_ok = False
+        for sb in sws:
+            si_ = guards.switch_info(bv, sb)
+            desc = fmt_t(si_.term)
+            if si_.kind == "discr" and si_.ty.get("d") == "std::option::Option" and (lib.head_call(si_.term) or "").endswith("Iterator::next"):
+                continue
+            if si_.kind == "discr" and "std::ops::Try::branch" in desc:
+                continue
+            if si_.kind == "discr" and (lib.head_call(si_.term) or "").endswith("::get_mut"):
+                # the store is on the Some edge; the None edge must leave with the too-many-parts error
+                none_t = [b for b in bv.succ[sb] if "Some" not in si_.edge_names(bv, b)]
+                leaves_ = all(nbi not in bv.reach_from([b]) for b in none_t)
+                bound_ok = bool(none_t) and leaves_
+                continue
+            bad.append("%s at %s" % (desc[:80], lib.loc(bv, sb)))
+        R.check("C20-R1", "store-unconditional", not bad, "store control-depends only on iterator exhaustion, the bounds lookup and the parse result", "store is control-dependent on: %s" % "; ".join(bad), lib.loc(bv, bi))
+        R.check("C20-R1", "bounds", bound_ok, "the slot comes from get_mut(i): in bounds by construction, out of bounds leaves with an error", "an out-of-range component index does not end the parse with an error")
+    R.floor("C20-R1", "stores through get_mut in from_str", len(gm_stores), 1)
+
+
 def run(F, R):
     c = F.client
     R.trust("rustc MIR construction; core::str::parse::<u32>, str::split, Itertools::format, derive(Ord) on arrays")
@@ -16,7 +60,16 @@ def run(F, R):
     if bv:
         R.count("bodies")
         stores = [(bi, si, p, r) for (bi, si, p, r) in bv.field_writes if any(e["k"] == "index" for e in p.get("p", [])) and bi in bv.reach0]
-        if R.floor("C20-R1", "indexed stores in from_str", len(stores), 1):
+        # second spelling: `match parts.get_mut(i) { Some(part) => *part = component.parse::<u32>()?, None => return Err(TooMany..) }`
+        gm_stores = []
+        for (bi, si, p, r) in bv.field_writes:
+            if bi in bv.reach0 and [e["k"] for e in p.get("p", [])] == ["deref"]:
+                tgt = strip(bv.trace_local(p["l"]))
+                if tgt[0] == "field" and tgt[1][0] == "downcast" and tgt[1][2] == "Some" and strip(tgt[1][1])[0] == "call" and lib.norm(strip(tgt[1][1])[1]).endswith("::get_mut"):
+                    gm_stores.append((bi, si, p, r, strip(tgt[1][1])))
+        if not stores and gm_stores:
+            _from_str_get_mut(R, c, bv, gm_stores)
+        elif R.floor("C20-R1", "indexed stores in from_str", len(stores), 1):
             # the loop: Iterator::next on Enumerate
             nexts = [(bi, t) for bi, t in bv.calls() if lib.callee_is(t, "std::iter::Iterator::next")]
             nexts = [(bi, t) for bi, t in nexts if "Enumerate" in (t.get("resolved") or "")]
@@ -149,6 +202,19 @@ def run(F, R):
             zero = any(s["k"] == "assign" and s["r"]["k"] == "repeat" and lib.const_val(s["r"]["o"].get("k", {})) == 0 and s["r"]["n"].startswith("4") for bl in v.blocks for s in bl["s"])
             sp = lib.has_call(v, "split_at_mut")
             cp = lib.has_call(v, "copy_from_slice")
+            ixm = lib.has_call(v, "index_mut")
+            if ok and zero and not sp and len(ixm) == 1 and len(cp) == 1:
+                # parts[..v.len()].copy_from_slice(&v)
+                ix = strip(v.trace_op(ixm[0][1]["args"][1]))
+                okr = ix[0] == "agg" and (ix[2] or "").endswith("RangeTo") and len(ix[3]) == 1
+                if okr:
+                    e_ = strip(ix[3][0])
+                    okr = e_[0] == "call" and e_[1].endswith("len") and ("param", 1) in [strip(x) for x in walk(e_)]
+                dst = v.trace_op(cp[0][1]["args"][0])
+                okr = okr and any(x[0] == "call" and x[1].endswith("index_mut") for x in walk(dst))
+                okr = okr and ("param", 1) in [strip(x) for x in walk(v.trace_op(cp[0][1]["args"][1]))]
+                R.check("C20-R5", "from:" + src, okr, "[0;4][..v.len()].copy_from_slice(&v)", "From<%s> does not zero-fill a prefix copy" % src)
+                continue
             ok = ok and zero and len(sp) == 1 and len(cp) == 1
             if ok:
                 mid = strip(v.trace_op(sp[0][1]["args"][1]))
